@@ -238,7 +238,10 @@ def payload_code(n, w):
 
 
 def kind_of(n):
-    t = n.type
+    try:
+        t = n.type
+    except Exception:          # a node the manager handed out although it does not type-check
+        return "other"
     if t.is_bool_type():
         return "bool"
     if t.is_int_type() or t.is_real_type():
@@ -250,7 +253,10 @@ def kind_of(n):
 
 def point_of(n):
     """(is_int_typed, value) when the node's type is a point interval, else None"""
-    t = n.type
+    try:
+        t = n.type
+    except Exception:
+        return None
     if (t.is_int_type() or t.is_real_type()) and t.lower_bound is not None and t.lower_bound == t.upper_bound:
         return (t.is_int_type(), Fraction(t.lower_bound))
     return None
